@@ -67,8 +67,8 @@ CLAIMED = {
             "C10_general_corrected: for all Inv states (no dangling binding, token-size consistency), all calls naming a pid, all n: every other pid untouched, interrupted pid served its own complete bytes or not-found/inconsistent, delete_object (Val or PidRefsDoesNotExist) then store_object succeeds and makes it retrievable; the literal statement without the two side conditions is PROVED false (witnesses in props/C10general.v); menu theorem crash_recovery for 84 scenarios x every crash point; "
             "implementation: directory state before every operation (validated against real fork+os._exit for a sample), reopened by a fresh instance, compared with run_crash and checked by the property's own oracle.",
             "DESIGN.md section 6 C10", "crash = process death with completed file-system operations persisting in order: no power-loss / write-back reordering model"),
-    "C13": ("Coq proof: reflective enumeration of ALL fault sites x {one-off, persistent} of each menu scenario by the kernel, lifted to every k by run_fault_beyond (CrashFault.v, Fault13_*.v); P-trace/P-fault correspondence",
-            "fault_safe for 77 scenarios x all sites x 2 modes except the 80 points of known13 (proved to fail: D10), one_off_all_pass, no_lock_left; implementation: OSError(EIO/ENOSPC/EACCES) injected at the same site, outcome/state/locks compared with run_fault, property oracle on the implementation.",
+    "C13": ("Coq proof: GENERAL theorems for every invariant state, call and fault plan (others untouched, never wrong bytes, failed store_metadata keeps the old version, the call returns with no lock left unless the flock itself fails; FaultGeneral.v) plus reflective enumeration of ALL fault sites x {one-off, persistent} of each menu scenario by the kernel, lifted to every k by run_fault_beyond (CrashFault.v, Fault13_*.v); P-trace/P-fault correspondence",
+            "general: fault_others_untouched, fault_never_wrong_bytes, store_metadata_fault_intact, fault_returns_no_lock for all Inv states / calls / fault states; the literal full statement is PROVED false (persistent read failure defeats the roll-back: C13_general_statement_false = known finding D10); the 'unbound and storable again, or earlier binding intact' clause is proved on the menu: fault_safe for 77 scenarios x all sites x 2 modes except the 80 points of known13 (proved to fail: D10), one_off_all_pass, no_lock_left; implementation: OSError(EIO/ENOSPC/EACCES) injected at the same site, outcome/state/locks compared with run_fault, property oracle on the implementation.",
             "DESIGN.md section 6 C13", "faults are OSError raised at call entry of the failing operation; short writes / EINTR are not modelled"),
     "C07": ("Coq proof: reflective exhaustive exploration of ALL schedules of every menu scenario by a proved explorer (explore_sound, Sched.v; scenario_sound, Lin.v), one vm_compute per scenario; P-sched correspondence under a controlled scheduler",
             "general: mutual exclusion on every identifier and every modification of a cid reference list happens under that cid's lock, for any pool / schedule / fault pattern (Mutex.v); menu: lin_pairs: 330 pairs (5 start states x 66 unordered pairs of an 11-call menu) and 245 triples of short calls, every schedule, linearizable and stored-is-retrievable, except the 27 pairs of known07 which are each PROVED to fail "
